@@ -6,5 +6,6 @@ CONSTANTS
   Kinds = {"cb", "wr", "wn"}
   L = 5
   MaxSpur = 1
+  Ext = TRUE
 CONSTRAINT GenBound
 CHECK_DEADLOCK FALSE
